@@ -37,7 +37,8 @@ EXPLANATION = ('PROVED in Lean for all inputs and all randomness (MpycV.C02, rel
                'the value opened inside trunc; secure*secure within one unit for every flag combination; secure*int exact; '
                'secure*float within 1+|x|/2 <= 2(1+|x|) units incl. the trailing-zero optimisation; in_prod within one unit. '
                'VALIDATED ONLY (differential exploration of the real code against exact rationals, not proved): x**n within '
-               'n(1+|x|)^(n-1) units; sin/cos within 4 units; division/reciprocal: the Newton iteration with float constants is '
+               'n(1+|x|)^(n-1) units; sin/cos (literal bound 4 units holds for moderate arguments only: known finding '
+               'C02-sincos-large-argument, the phase error grows like 0.049|x| units; regression bound enforced: 4+|x|/16 units); division/reciprocal: the Newton iteration with float constants is '
                'not modelled. Reading of the division clause: the bound as literally stated, 16(1+|x|) units, does not hold for '
                'small divisors (known finding C02-div-small-divisor) nor for types with l > 2f+1 (known finding '
                'C02-div-wide-type); the check enforces the regression bound 16(1+|x|+|x/y|) units for l <= 2f+1 and |y| >= 2^-f, '
@@ -49,7 +50,7 @@ ASSUMPTIONS = ['the share layer (C11/C12): a secure number is the field element 
                'is re-run once with fresh randomness before it is reported']
 TRUSTED = ['harness/fxp_lib.py: interpreter, randomness recovery (Lagrange recombination of logged shares), Fraction oracle']
 
-KEYS = {'div-small': 'C02-div-small-divisor', 'div-wide': 'C02-div-wide-type'}
+KEYS = {'div-small': 'C02-div-small-divisor', 'div-wide': 'C02-div-wide-type', 'sincos-large': 'C02-sincos-large-argument'}
 
 OPS = ['add', 'sub', 'neg', 'mul', 'mul', 'mul', 'sq', 'muli', 'mulf', 'mulf', 'mulf', 'addf', 'lshift', 'cmp', 'cmp',
        'ifelse', 'sum', 'inprod', 'inprod', 'prod', 'prod', 'schur', 'smul', 'matprod', 'pow', 'pow', 'trunc', 'trunc',
@@ -84,6 +85,7 @@ KNOWN_DIRECTED = [
     ((16, 8), [['craw', [], -104], ['craw', [], 1], ['div', [0, 1], None]]),
     ((32, 16), [['craw', [], -97525], ['craw', [], -5], ['div', [0, 1], None]]),
     ((24, 6), [['cfloat', [], (1754.96875).hex()], ['cfloat', [], (-1 / 64).hex()], ['div', [0, 1], None]]),
+    ((32, 16), [['cfloat', [], (3421.75).hex()], ['cos', [0], None], ['cfloat', [], (10000.0).hex()], ['sin', [2], None]]),
 ]
 
 
